@@ -774,6 +774,21 @@ def plainListB : List Val → Bool
   | x :: xs => plainB x && plainListB xs
 end
 
+mutual
+/-- no msgpack extension value is left unconverted anywhere in the value -/
+def noExtB : Val → Bool
+  | .ext _ _ _ _ => false
+  | .list xs => noExtListB xs
+  | .tuple xs => noExtListB xs
+  | .set xs => noExtListB xs
+  | .dict _ vs => noExtListB vs
+  | .inst _ ps => noExtListB ps
+  | _ => true
+def noExtListB : List Val → Bool
+  | [] => true
+  | x :: xs => noExtB x && noExtListB xs
+end
+
 /-- the effects decoding may have -/
 def Allowed (reg : List Str) : Effect → Prop
   | .convert t => t ∈ reg
